@@ -175,8 +175,8 @@ func H_C20_marker(k, second int) {
 // two content lines are n1 and n2 free bytes over {backtick, space, tab, 'a'} - lines
 // that may look like closing fences of any shorter length, with indentation and
 // trailing whitespace. Variant (solver-chosen): the block is closed by its fence, or
-// runs to the end of input with / without a final line ending. Format must choose a
-// fence that none of the content lines closes.
+// runs to the end of input (canonical documents end in a line ending). Format must
+// choose a fence that none of the content lines closes.
 func H_C20_fence(n1, n2 int) {
 	line := func(n int) []byte {
 		var l []byte
@@ -191,11 +191,10 @@ func H_C20_fence(n1, n2 int) {
 	d = append(d, line(n1)...)
 	d = append(d, '\n')
 	d = append(d, line(n2)...)
-	switch vconcrete(nondetInt(0, 2)) {
-	case 0:
+	if nondetBool() {
 		d = append(d, "\n```````\n"...)
-	case 1:
-		d = append(d, '\n')
+	} else {
+		d = append(d, '\n') // the block runs to the end of input (with its final line ending)
 	}
 	f := formatDoc(cloneBytes(d))
 	h1 := normHTML(renderHTML(cloneBytes(d)))
